@@ -10,12 +10,16 @@ From Cassis Require Import Base Heap Schema Canon Lex JsonDoc Json JsonWf CorrC0
 From Cassis Require XmiDoc Xmi XmiRt XmiRtTotal.
 Open Scope Z_scope.
 
+(* chain N: an XMI document that does not mention _InitialView -> CAS N1 -> JSON document n_doc -> CAS N2 *)
+Record chain_n := mkChainN { n_doc : json; n1_json : ccas; n1_xmi : ccas; n2_json : ccas; n2_xmi : ccas }.
+
 Record case := mkCase {
   k_user : schema;
   k_ftab : list (string * flt);
   k_cas : cas;                      (* the scenario CAS both chains start from (every structure has an explicit id) *)
   a_xmi : XmiDoc.xdoc; a1_json : ccas; a1_xmi : ccas; a_doc : json; a2_json : ccas; a2_xmi : ccas;
-  b_doc : json; b1_json : ccas; b1_xmi : ccas; b_xmi : XmiDoc.xdoc; b2_json : ccas; b2_xmi : ccas }.
+  b_doc : json; b1_json : ccas; b1_xmi : ccas; b_xmi : XmiDoc.xdoc; b2_json : ccas; b2_xmi : ccas;
+  k_n : option chain_n }.
 
 Definition tab_parse (t : list (string * flt)) (a : string) : option flt := alookup a t.
 Definition xmi_denotes (c : case) (s : schema) (d : XmiDoc.xdoc) (x : ccas) : bool :=
@@ -58,5 +62,13 @@ Definition checks (c : case) : list bool :=
     xmi_denotes c s (b_xmi c) (b2_xmi c);                 (* and is what the final CAS holds *)
     inline_outlineb s (b2_json c) (b2_xmi c);
     (* the models on the scenario CAS *)
-    negb (premises c) || model_views c ].
+    negb (premises c) || model_views c;
+    (* chain N: the JSON leg behind an XMI document without _InitialView *)
+    match k_n c with
+    | None => true
+    | Some n =>
+      json_denotes s (n_doc n) (n1_json n)
+      && res_ccas_eqb (load_json std_lex s (n_doc n)) (n2_json n)
+      && inline_outlineb s (n1_json n) (n1_xmi n) && inline_outlineb s (n2_json n) (n2_xmi n)
+    end ].
 Definition check_case (c : case) : bool := forallb (fun b => b) (checks c).
